@@ -33,6 +33,10 @@ func init() {
 	add("c03-readers-peek-moves", "C03.readers", dec, "\tn, err := d.TryUintBits(nBits)\n\tif _, err := d.bitBuf.SeekBits(start, io.SeekStart); err != nil {", "\tn, err := d.TryUintBits(nBits)\n\tif _, err := d.bitBuf.SeekBits(start, io.SeekCurrent); err != nil {", "TryPeekBits")
 	add("c03-roots-bufferroot-flags", "C03.roots", val, "func (v *Value) BufferRoot() *Value { return v.root(true, false) }", "func (v *Value) BufferRoot() *Value { return v.root(false, false) }", "wrapper:BufferRoot")
 	add("c03-roots-stop-at-parent", "C03.roots", val, "\t\tif findSubRoot && rootV.IsRoot {\n\t\t\tbreak", "\t\tif findSubRoot && rootV.Parent.IsRoot {\n\t\t\tbreak", "root:")
+	// sub: adoption of a nested result before / without testing it
+	add("c03-sub-format-errors-unchecked", "C03.sub", dec, "\tif dv == nil || dv.Errors() != nil {\n\t\td.IOPanic(err, \"\", \"Format: decode\")", "\tif dv == nil {\n\t\td.IOPanic(err, \"\", \"Format: decode\")", "Format:adopt-after-test")
+	add("c03-sub-len-test-after-link", "C03.sub", dec, "\tif dv == nil || dv.Errors() != nil {\n\t\treturn nil, nil, err\n\t}\n\n\td.AddChild(dv)\n\tif _, err := d.bitBuf.SeekBits(nBits, io.SeekCurrent); err != nil {", "\tif dv == nil {\n\t\treturn nil, nil, err\n\t}\n\n\td.AddChild(dv)\n\tif dv.Errors() != nil {\n\t\treturn nil, nil, err\n\t}\n\tif _, err := d.bitBuf.SeekBits(nBits, io.SeekCurrent); err != nil {", "TryFieldFormatLen:adopt-after-test")
+	add("c03-cover-range-nofill", "C03.cover", dec, "\t\tFillGaps:    true,\n\t\tIsRoot:      false,\n\t\tRange:       ranges.Range{Start: firstBit, Len: nBits},", "\t\tFillGaps:    false,\n\t\tIsRoot:      false,\n\t\tRange:       ranges.Range{Start: firstBit, Len: nBits},", "TryFieldFormatRange:FillGaps")
 	// generalised forms must still decide: compare-and-select minimum with the wrong direction
 	add("c03-minmax-select-wrong-way", "C03.minmax", "pkg/ranges/ranges.go", "\tminStart := min(a.Start, b.Start)\n", "\tminStart := a.Start\n\tif b.Start > minStart {\n\t\tminStart = b.Start\n\t}\n", "MinMax:start")
 }
